@@ -544,7 +544,7 @@ func rpo(fn *ssa.Function, back map[[2]int]bool) []*ssa.BasicBlock {
 
 // run executes fn from state st with parameters already bound in fr.env. It returns the merged
 // exit (nil if no return is reachable).
-func (fr *Frame) run(st *State) *retInfo {
+func (fr *Frame) runOld(st *State) *retInfo {
 	x := fr.x
 	fn := fr.fn
 	if len(fn.Blocks) == 0 {
